@@ -406,4 +406,137 @@ example :
       ([cexA', cexB', cexD'], some Next.done) := by
   decide
 
+/-! ### a query handed to the fallback policy as it is: the lazy iterator is the position walk of `roundRobbin` -/
+
+theorem scanPos_nil_host (up : Nat → Bool) (ps : List (Option Host)) :
+    ∀ x rest, scanPos up [] ps = (.host x, rest) →
+      runScan up ps = ⟨x :: (runScan up rest).offered, (runScan up rest).crashed⟩ := by
+  induction ps with
+  | nil => intro x rest h; simp [scanPos] at h
+  | cons a t ih =>
+    intro x rest h
+    cases a with
+    | none => simp [scanPos] at h
+    | some y =>
+      unfold scanPos at h
+      by_cases hu : up y.id = true
+      · simp only [hu, List.contains_nil, Bool.not_false, Bool.and_true, if_true] at h
+        injection h with e1 e2
+        injection e1 with e1
+        subst e1 e2
+        simp only [runScan, hu, if_true]
+      · have hu' : up y.id = false := by simpa using hu
+        simp only [hu', Bool.false_and, Bool.false_eq_true, if_false] at h
+        simp only [runScan, hu', Bool.false_eq_true, if_false]
+        exact ih x rest h
+
+theorem scanPos_nil_end (up : Nat → Bool) (ps : List (Option Host)) :
+    ∀ rest, (scanPos up [] ps = (.done, rest) → runScan up ps = ⟨[], false⟩ ∧ rest = []) ∧
+      (scanPos up [] ps = (.panic, rest) → runScan up ps = ⟨[], true⟩) := by
+  induction ps with
+  | nil => intro rest; simp [scanPos, runScan]
+  | cons a t ih =>
+    intro rest
+    cases a with
+    | none => simp [scanPos, runScan]
+    | some y =>
+      unfold scanPos
+      by_cases hu : up y.id = true
+      · simp only [hu, List.contains_nil, Bool.not_false, Bool.and_true, if_true]
+        constructor <;> intro h <;> simp at h
+      · have hu' : up y.id = false := by simpa using hu
+        simp only [hu', Bool.false_and, Bool.false_eq_true, if_false, runScan]
+        exact ih rest
+
+/-- a plain lazy iterator past its `Pick` -/
+def PWf (it : LIter) (ps : List (Option Host)) : Prop := it.plain = true ∧ it.q1 = [] ∧ it.q2 = [] ∧ it.fb = some ps
+
+theorem pstep (t : TA) (up : Nat → Bool) (it : LIter) (ps : List (Option Host)) (hw : PWf it ps) :
+    (t.nextL up it).2.2 = expectedNext (runScan up ps) ∧
+    ((t.nextL up it).2.2 ≠ .panic → ∃ ps', PWf (t.nextL up it).2.1 ps' ∧
+      runScan up ps' = ⟨(runScan up ps).offered.tail, (runScan up ps).crashed⟩) := by
+  obtain ⟨given, q1, q2, fb, plain⟩ := it
+  obtain ⟨h1, h2, h3, h4⟩ := hw
+  simp only at h1 h2 h3 h4
+  subst h1 h2 h3 h4
+  cases hs : scanPos up [] ps with
+  | mk e rest =>
+    cases e with
+    | host x =>
+      have hd := scanPos_nil_host up ps x rest hs
+      refine ⟨?_, fun _ => ⟨rest, ?_, ?_⟩⟩
+      · simp only [TA.nextL, List.dropWhile_nil, if_true, hs, hd, expectedNext]
+      · simp only [TA.nextL, List.dropWhile_nil, if_true, hs]
+        exact ⟨rfl, rfl, rfl, rfl⟩
+      · rw [hd]; simp only [List.tail_cons]
+    | done =>
+      obtain ⟨hd, hr⟩ := (scanPos_nil_end up ps rest).1 hs
+      subst hr
+      refine ⟨?_, fun _ => ⟨[], ?_, ?_⟩⟩
+      · simp only [TA.nextL, List.dropWhile_nil, if_true, hs, hd, expectedNext, Bool.false_eq_true, if_false]
+      · simp only [TA.nextL, List.dropWhile_nil, if_true, hs]
+        exact ⟨rfl, rfl, rfl, rfl⟩
+      · rw [hd]; rfl
+    | panic =>
+      have hd := (scanPos_nil_end up ps rest).2 hs
+      refine ⟨?_, fun hne => ?_⟩
+      · simp only [TA.nextL, List.dropWhile_nil, if_true, hs, hd, expectedNext]
+      · exfalso
+        apply hne
+        simp only [TA.nextL, List.dropWhile_nil, if_true, hs]
+
+theorem prun (up : Nat → Bool) (n : Nat) : ∀ (t : TA) (it : LIter) (ps : List (Option Host)), PWf it ps →
+    (t.nextLN up it n).2.2.1 = (runScan up ps).offered.take n ∧
+    (n ≤ (runScan up ps).offered.length → (t.nextLN up it n).2.2.2 = none) ∧
+    ((runScan up ps).offered.length < n →
+      (t.nextLN up it n).2.2.2 = some (if (runScan up ps).crashed then .panic else .done)) := by
+  induction n with
+  | zero =>
+    intro t it ps _
+    exact ⟨by simp [TA.nextLN], fun _ => rfl, fun h => absurd h (Nat.not_lt_zero _)⟩
+  | succ n ih =>
+    intro t it ps hw
+    obtain ⟨hnext, hrest⟩ := pstep t up it ps hw
+    have hp : t.nextL up it = ((t.nextL up it).1, (t.nextL up it).2.1, (t.nextL up it).2.2) := rfl
+    cases hoff : (runScan up ps).offered with
+    | nil =>
+      have he : (t.nextL up it).2.2 = (if (runScan up ps).crashed then .panic else .done) := by
+        rw [hnext]; simp only [expectedNext, hoff]
+      have hrun : t.nextLN up it (n + 1) = ((t.nextL up it).1, (t.nextL up it).2.1, [], some (t.nextL up it).2.2) := by
+        rw [TA.nextLN, hp, he]
+        cases (runScan up ps).crashed <;> rfl
+      rw [hrun]
+      refine ⟨by simp, fun h => by simp at h, fun _ => by simp only [he]⟩
+    | cons x rest =>
+      have he : (t.nextL up it).2.2 = .host x := by
+        rw [hnext]; simp only [expectedNext, hoff]
+      obtain ⟨ps', hw', hl⟩ := hrest (by rw [he]; simp)
+      rw [hoff] at hl
+      simp only [List.tail_cons] at hl
+      obtain ⟨i1, i2, i3⟩ := ih (t.nextL up it).1 (t.nextL up it).2.1 ps' hw'
+      rw [hl] at i1 i2 i3
+      simp only at i1 i2 i3
+      have hrun : t.nextLN up it (n + 1) =
+          ((TA.nextLN (t.nextL up it).1 up (t.nextL up it).2.1 n).1, (TA.nextLN (t.nextL up it).1 up (t.nextL up it).2.1 n).2.1,
+            x :: (TA.nextLN (t.nextL up it).1 up (t.nextL up it).2.1 n).2.2.1,
+            (TA.nextLN (t.nextL up it).1 up (t.nextL up it).2.1 n).2.2.2) := by
+        rw [TA.nextLN, hp, he]
+      rw [hrun]
+      refine ⟨by simp only [List.take_succ_cons, i1], fun h => i2 (by simpa using h), fun h => i3 (by simpa using h)⟩
+
+/-- THE LAZY ITERATOR REFINES THE EAGER ONE, queries handed to the fallback policy as they are (no routing key, no token
+ring, empty ring): the calls return the hosts of the fallback policy's drained scan -/
+theorem C11_lazy_refines_eager_plain (t : TA) (up : Nat → Bool) (σ : List Host → List Host) (rk : Option (Nat × Nat))
+    (hplain : (t.openL σ rk).2 = ⟨[], [], [], some t.pol.positions, true⟩) (n : Nat) :
+    let S := t.pol.pickScan up
+    let r := (t.openL σ rk).1.nextLN up (t.openL σ rk).2 n
+    r.2.2.1 = S.offered.take n ∧
+    (n ≤ S.offered.length → r.2.2.2 = none) ∧
+    (S.offered.length < n → r.2.2.2 = some (if S.crashed then .panic else .done)) := by
+  intro S r
+  have hw : PWf (t.openL σ rk).2 t.pol.positions := by rw [hplain]; exact ⟨rfl, rfl, rfl, rfl⟩
+  exact prun up n (t.openL σ rk).1 (t.openL σ rk).2 t.pol.positions hw
+
+example : (cexTAok.openL id none).2 = ⟨[], [], [], some cexTAok.pol.positions, true⟩ := rfl
+
 end C11
